@@ -582,6 +582,10 @@ func prepareFile(text string, withImport bool, spare int) (*bebop.File, []byte, 
 	ws := workspace()
 	os.WriteFile(filepath.Join(ws.dir, "impx.bop"), []byte(impText), 0o644)
 	os.WriteFile(filepath.Join(ws.dir, "impy.bop"), []byte(impTextY), 0o644)
+	os.WriteFile(filepath.Join(ws.dir, "cyca.bop"), []byte("import \"cycb.bop\"\nimport \"cycc.bop\"\nimport \"cycd.bop\"\nconst string go_package = \"example.com/sim/cyca\";\nstruct CycA { int32 a; }\n"), 0o644)
+	os.WriteFile(filepath.Join(ws.dir, "cycb.bop"), []byte("import \"cyca.bop\"\nconst string go_package = \"example.com/sim/cycb\";\nstruct CycB { int32 b; }\n"), 0o644)
+	os.WriteFile(filepath.Join(ws.dir, "cycc.bop"), []byte("import \"cyca.bop\"\nconst string go_package = \"example.com/sim/cycc\";\nstruct CycC { int32 c; }\n"), 0o644)
+	os.WriteFile(filepath.Join(ws.dir, "cycd.bop"), []byte("import \"cycb.bop\"\nconst string go_package = \"example.com/sim/cycd\";\nstruct CycD { int32 d; }\n"), 0o644)
 	main := text
 	if withImport {
 		// two imported files with different go_package values, both used by this file
@@ -807,7 +811,11 @@ func execConcurrent(n *Node, sc *Scenario) *Violation {
 		// definitions that parse but cannot be compiled, with SEVERAL candidates for the error
 		// that is reported: which one is named must not depend on map order or history
 		cp := *prog
-		cp.Bop = prog.Bop + "\n" + semanticErrors[k-1]
+		if se := semanticErrors[k-1]; strings.HasPrefix(se, "import ") {
+			cp.Bop = se + prog.Bop
+		} else {
+			cp.Bop = prog.Bop + "\n" + se
+		}
 		prog = &cp
 	}
 	// prelude: the complementary call (every option flipped) of each task, so that the
@@ -1060,6 +1068,13 @@ var semanticErrors = []string{
 	"struct SeDup { int32 a; }\nstruct SeDup { int32 b; }\nstruct SeDup2 { }\nstruct SeDup2 { }\n",
 	"enum SeEn { A = 1; B = 1; C = 2; D = 2; }\nenum SeEn2 : uint8 { X = 300; Y = 301; }\n",
 	"[opcode(\"abcd\")]\nstruct SeOp1 { int32 a; }\n[opcode(\"abcd\")]\nstruct SeOp2 { int32 a; }\n[opcode(\"abcd\")]\nmessage SeOp3 { 1 -> int32 a; }\n",
+	// only messages / only unions carry the errors (their members live in maps)
+	"message SeM1 { 1 -> GhostA a; 2 -> GhostB b; 3 -> GhostC c; 4 -> GhostD d; }\nmessage SeM2 { 1 -> GhostE e; 2 -> GhostF f; }\n",
+	"union SeU1 { 1 -> struct SeDupA { } 2 -> struct SeDupA { } 3 -> struct SeDupB { } 4 -> struct SeDupB { } 5 -> struct SeDupC { } 6 -> struct SeDupC { } }\n",
+	"union SeU2 { 1 -> struct SeBr1 { GhostG g; } 2 -> struct SeBr2 { GhostH h; } 3 -> message SeBr3 { 1 -> GhostI i; } }\n",
+	"message SeM3 { 1 -> int32 same; 2 -> int32 same; 3 -> int32 other; 4 -> int32 other; }\n",
+	// an import graph with two cycles through the imported file (files written by prepareFile)
+	"import \"cyca.bop\"\n",
 }
 
 func compareResult(phase string, ts TaskSpec, ref, got *taskResult) *Violation {
